@@ -1200,11 +1200,11 @@ def r14_float_bilinear_weights(ck, P, rid='C08-R14'):
         ck.incomplete(R, 'bilinear_interpolation_float not found in any unit')
 
 
-def r15_mask_stride_follows_pipeline(ck, P, rid='C08-R15'):
-    """T-WID: a routine that serves both pipelines (it takes a selector that its callers pass as the constants 0 and 1) and looks at the
-    mask scanline reads the mask with the element size of the selected pipeline: one word per pixel only under selector == 0."""
-    R = ck.rule(rid, 'in every routine that is instantiated for both the 32-bit and the float pipeline through a constant 0/1 selector and that reads a mask scanline, a read of mask[i] (one word per pixel) happens only under selector == 0; under the float pipeline a mask pixel is four words (argb_t) and is addressed as mask[4*i + k]: otherwise three of four source pixels are skipped or kept on the value of a neighbour\'s channel', floor=2)
-    # selector parameters: fixpoint over call sites
+def selector_params(P):
+    """(function, parameter index) pairs that are pipeline selectors: integer parameters every call site in the unit passes as the constant
+    0 or 1 (both occur) or as the caller's own selector - fixpoint over call sites"""
+    if getattr(P, '_selpar', None) is not None:
+        return P._selpar
     sel = set(); grew = True
     fns = list(P.functions())
     while grew:
@@ -1230,6 +1230,221 @@ def r15_mask_stride_follows_pipeline(ck, P, rid='C08-R15'):
                         ok = False
                 if ok and set(vals) == {0, 1}:
                     sel.add((g, k)); grew = True
+    P._selpar = sel
+    return sel
+
+
+def pipeline_selectors(P):
+    """the selector parameters that choose the pixel representation: inside the function a branch on the parameter decides which
+    function produces the pixels (an indirect call, or a function constant flowing into a phi, in a block only one selector value
+    reaches), or the parameter is handed on as such a selector of a callee"""
+    if getattr(P, '_pipesel', None) is not None:
+        return P._pipesel
+    sel = selector_params(P)
+    def on_selector(g, k, t):
+        if t.op != 'br' or not t.a:
+            return False
+        c, p, ops = g.cond(t.a[0])
+        if c is None:
+            return False
+        for q in ops:
+            z = g.v(q)
+            while z is not None and z.op in ('zext', 'sext', 'trunc'):
+                q = z.a[0]; z = g.v(q)
+            if list(q) == ['a', k]:
+                return True
+        return False
+    out = set()
+    for g, k in sel:
+        ev = False
+        for x in g.insts():
+            if x.op == 'select' and x.a[1][0] == 'f' and x.a[2][0] == 'f':
+                y = g.v(x.a[0])
+                if y is not None and y.op == 'icmp' and any(list(q) == ['a', k] for q in y.a):
+                    ev = True
+        for b in g.blocks:
+            if not any(on_selector(g, k, t) for t, s_ in g.guard_edges(b.id)):
+                continue
+            if any(x.op == 'call' and x.callee is None and 'callee' in x.d for x in b.insts):
+                ev = True
+            for s_ in b.succ:
+                for x in g.blocks[s_].insts:
+                    if x.op == 'phi' and any(a[0] == 'f' and bb == b.id for a, bb in zip(x.a, x.d['bb'])):
+                        ev = True
+        if ev:
+            out.add((g, k))
+    grew = True
+    while grew:
+        grew = False
+        for g, k in sel - out:
+            for c in g.calls():
+                h = P.resolve(g, c.callee) if c.callee else None
+                if h is None:
+                    continue
+                if any((h, j) in out and list(a) == ['a', k] for j, a in enumerate(c.a)):
+                    out.add((g, k)); grew = True
+    P._pipesel = out
+    return out
+
+
+def _lin_under(f, o, k, v, d=0):
+    """_lin with the selector parameter k assumed to be v: a phi (or select) all of whose incoming edges but one are excluded by a
+    branch on the selector resolves to the remaining operand"""
+    if d > 30:
+        return None
+    if o[0] == 'c':
+        return {1: int(o[1])}
+    if o[0] == 'a':
+        return {1: v} if o[1] == k else {('a', o[1]): 1}
+    if o[0] != 'v':
+        return None
+    x = f.by_id[o[1]]
+    def sel_edge_ok(t, s):
+        """is the edge (branch t -> s) possible under the assumption?"""
+        if not t.a:
+            return True
+        c, p, ops = f.cond(t.a[0])
+        if c is None:
+            return True
+        if p in ('is', 'not'):
+            q = ops[0]; z = f.v(q)
+            while z is not None and z.op in ('zext', 'sext', 'trunc'):
+                q = z.a[0]; z = f.v(q)
+            if list(q) != ['a', k]:
+                return True
+            truth = bool(v) if p == 'is' else not v
+        elif p in ('eq', 'ne'):
+            qs = []
+            for q in ops:
+                z = f.v(q)
+                while z is not None and z.op in ('zext', 'sext', 'trunc'):
+                    q = z.a[0]; z = f.v(q)
+                qs.append(list(q))
+            if ['a', k] not in qs:
+                return True
+            cs = [q for q in qs if q[0] == 'c']
+            if not cs:
+                return True
+            truth = (v == int(cs[0][1])) == (p == 'eq')
+        else:
+            return True
+        return (t.d['succ'][0] == s) == truth if t.d['succ'][0] != t.d['succ'][1] else True
+    if x.op in ('trunc', 'sext', 'zext'):
+        return _lin_under(f, x.a[0], k, v, d + 1)
+    if x.op == 'phi':
+        live = []
+        for a, bb in zip(x.a, x.d['bb']):
+            ok = True
+            tb = f.blocks[bb].term
+            if tb.op == 'br' and tb.a and not sel_edge_ok(tb, x.bb.id):
+                ok = False
+            for t, s_ in f.guard_edges(bb):
+                if not sel_edge_ok(t, s_):
+                    ok = False
+            if ok:
+                live.append(a)
+        if len(live) == 1:
+            return _lin_under(f, live[0], k, v, d + 1)
+        return {('v', x.i): 1}
+    if x.op == 'select':
+        c = _lin_under(f, x.a[0], k, v, d + 1)
+        y = f.v(x.a[0])
+        if y is not None and y.op == 'icmp' and y.d['p'] in ('eq', 'ne'):
+            l, r = _lin_under(f, y.a[0], k, v, d + 1), _lin_under(f, y.a[1], k, v, d + 1)
+            if l is not None and r is not None and not (set(l) - {1}) and not (set(r) - {1}):
+                truth = (l.get(1, 0) == r.get(1, 0)) == (y.d['p'] == 'eq')
+                return _lin_under(f, x.a[1] if truth else x.a[2], k, v, d + 1)
+        return {('v', x.i): 1}
+    if x.op in ('add', 'sub'):
+        p, q = _lin_under(f, x.a[0], k, v, d + 1), _lin_under(f, x.a[1], k, v, d + 1)
+        if p is None or q is None:
+            return None
+        out = dict(p)
+        for kk, vv in q.items():
+            out[kk] = out.get(kk, 0) + (vv if x.op == 'add' else -vv)
+        return {kk: vv for kk, vv in out.items() if vv}
+    if x.op in ('mul', 'shl'):
+        p, q = _lin_under(f, x.a[0], k, v, d + 1), _lin_under(f, x.a[1], k, v, d + 1)
+        if p is None or q is None:
+            return None
+        if x.op == 'shl':
+            if set(q) - {1}:
+                return None
+            c = 1 << q.get(1, 0); return {kk: vv * c for kk, vv in p.items()}
+        for a_, b_ in ((p, q), (q, p)):
+            if not (set(b_) - {1}):
+                c = b_.get(1, 0)
+                return {kk: vv * c for kk, vv in a_.items() if vv * c}
+        return None
+    return {('v', x.i): 1}
+
+
+def r17_cursor_step_follows_pipeline(ck, P, rid='C01-R14'):
+    """T-WID: a routine that serves both pipelines walks its output scanline in pixels of the selected size: every advance of the word
+    cursor and every byte count cleared at it is, under selector == 1, exactly four times what it is under selector == 0."""
+    R = ck.rule(rid, 'in every routine instantiated for both pipelines through a constant 0/1 selector, each advance of the uint32_t output cursor (buffer += n) and each byte count zero-filled at it (memset (buffer, 0, n)) evaluates under selector == 1 to four times its value under selector == 0 (a float pixel is four words): an advance that does not scale leaves the following pixels at the wrong place in the float scanline', floor=8)
+    n = 0
+    for g, k in sorted(pipeline_selectors(P), key=lambda t: (t[0].unit.name, t[0].name, t[1])):
+        outs = [i for i, (pn, pt) in enumerate(g.params) if pt == 'i32*' and 'mask' not in (pn or '')]
+        def from_out(o, seen=None):
+            seen = set() if seen is None else seen
+            if o[0] == 'a':
+                return o[1] in outs
+            y = g.v(o)
+            if y is None or y.i in seen:
+                return False
+            seen.add(y.i)
+            if y.op == 'load':
+                return g.last_field(g.path(y.a[0])) == 'pixman_iter_t.buffer'
+            if y.op in ('getelementptr', 'bitcast'):
+                return from_out(y.a[0], seen)
+            if y.op == 'phi':
+                return any(from_out(a, seen) for a in y.a)
+            return False
+        items = []
+        for x in g.insts():
+            if x.op == 'getelementptr' and x.ty == 'i32*' and from_out(x.a[0]):
+                idx = [st[1] for st in x.d.get('path', []) if st and st[0] in ('p', 'x') and isinstance(st[1], list)]
+                if len(idx) != 1:
+                    continue
+                # an advance: the result flows back into the cursor (a phi) or is the cursor used afterwards; an indexed access (used only
+                # as the address of a load / store) is not
+                us = list(g.users(x))
+                if us and all(u.op in ('load', 'store') and (u.op == 'load' or list(u.a[1]) == ['v', x.i]) for u in us):
+                    continue
+                items.append(('advance', x, idx[0], 1))
+            elif x.op == 'call' and isinstance(x.callee, str) and x.callee.startswith('llvm.memset') and from_out(x.a[0]):
+                items.append(('memset size', x, x.a[2], 4))
+        for kind, x, o, unit in items:
+            l0, l1 = _lin_under(g, o, k, 0), _lin_under(g, o, k, 1)
+            n += 1; ck.saw(g)
+            where = '%s: %s at %s' % (g.name, kind, x.loc())
+            if l0 is None or l1 is None or not l0:
+                ck.incomplete(R, '%s: not a linear form' % where); continue
+            if {kk: vv * 4 for kk, vv in l0.items()} == l1:
+                ck.ok(R, where)
+            else:
+                ck.violation(R, g.name, '%s at %s' % (kind, x.loc()), '%s serves both pipelines (parameter %s is passed as 0 and as 1); its %s at %s is %s under the 32-bit pipeline and %s under the float pipeline, not four times as much: a float pixel is four words, so the pixels that follow are written to / cleared at the wrong place in the scanline' % (g.name, g.params[k][0] or k, kind, x.loc(), _fmt_lin(g, l0), _fmt_lin(g, l1)), x.loc())
+    if n == 0:
+        raise AnalysisBroken('%s: no output-cursor advance in a routine shared by both pipelines found' % rid)
+
+
+def _fmt_lin(f, l):
+    def nm(kk):
+        if kk == 1:
+            return ''
+        if kk[0] == 'a':
+            return '*' + (f.params[kk[1]][0] or 'arg%d' % kk[1])
+        y = f.by_id.get(kk[1])
+        return '*<%s at %s>' % (y.op, y.loc()) if y is not None else '*?'
+    return ' + '.join('%d%s' % (vv, nm(kk)) for kk, vv in sorted(l.items(), key=repr)) or '0'
+
+
+def r15_mask_stride_follows_pipeline(ck, P, rid='C08-R15'):
+    """T-WID: a routine that serves both pipelines (it takes a selector that its callers pass as the constants 0 and 1) and looks at the
+    mask scanline reads the mask with the element size of the selected pipeline: one word per pixel only under selector == 0."""
+    R = ck.rule(rid, 'in every routine that is instantiated for both the 32-bit and the float pipeline through a constant 0/1 selector and that reads a mask scanline, a read of mask[i] (one word per pixel) happens only under selector == 0; under the float pipeline a mask pixel is four words (argb_t) and is addressed as mask[4*i + k]: otherwise three of four source pixels are skipped or kept on the value of a neighbour\'s channel', floor=2)
+    sel = selector_params(P)
     n = 0
     for g, k in sorted(sel, key=lambda t: (t[0].unit.name, t[0].name, t[1])):
         mp = [i for i, (pn, pt) in enumerate(g.params) if pt == 'i32*' and 'mask' in (pn or 'mask')]
